@@ -169,7 +169,7 @@ Definition extracted (q : quirks) (vd : vardef) (d : value) : json :=
   if is_list (vd_type vd) then
     match dj with
     | JArr _ => dj
-    | JNull => if q_default_null_wrap q then wrap_n (list_depth (vd_type vd)) dj else dj
+    | JNull => dj
     | _ => wrap_n (list_depth (vd_type vd)) dj
     end
   else dj.
